@@ -868,10 +868,10 @@ fn connack_step(n: usize) {
         Ok(out) => {
             assert!(ok_code && out.is_none(), "C07 connack.ok_only_on_success");
             let exp_max = match (with_props, receive_max) {
-                (true, Some(m)) => if m < n as u16 { m } else { n as u16 },
+                (true, Some(m)) => if m == 0 { 1 } else if m < n as u16 { m } else { n as u16 },
                 _ => old_max,
             };
-            assert!(st.max_outgoing_inflight == exp_max, "C07 connack.window_is_min_of_receive_max_and_configured");
+            assert!(st.max_outgoing_inflight == exp_max, "C07 connack.window_is_min_of_receive_max_and_configured_at_least_1");
             let exp_alias = match (with_props, topic_alias_max) { (true, Some(a)) => a, _ => old_alias };
             assert!(st.broker_topic_alias_max == exp_alias, "C10 connack.alias_max");
         }
